@@ -166,11 +166,32 @@ CLAIMED["C13"] = dict(
     technique="Kani/CBMC bounded model checking (SAT): relational two-run harnesses with uninterpreted libm",
     design="4 (C13)")
 
+CLAIMED["C09"] = dict(
+    text="Bounded model checking of panic freedom (Kani's own overflow/division/cast/bounds checks are the property) "
+         "of the public angular functions on every bit pattern of their arguments: the four ISO-6709 conversions on "
+         "all f64, dms_to_dd/dm_to_dd on all i32 degrees, all u16 minutes, all f64 seconds. Panic freedom of the "
+         "stack dispatch (C12), the grid lookup and decoders (C08, C15) is decided by those checks.",
+    note=TRUST + "No stubs. Dev-profile semantics (integer overflow panics). Outside: Context::op on arbitrary text "
+         "(String/BTreeMap-heavy instantiation is out of CBMC's reach), parse_sexagesimal, the ellipsoid module, "
+         "operator kernels on arbitrary tuples (they call libm; Kani's libm models are nondeterministic, panics in "
+         "them are not meaningful), normalize_* (fmod; thorough tier, may time out).",
+    technique="Kani/CBMC bounded model checking (SAT): panic freedom on all bit patterns",
+    design="4 (C09)")
+
 NA = {
     "C05": "differential identities over compositions of libm functions on the ellipsoid: no precise libm in CBMC, no "
            "theory of sin/atanh/exp in z3/cvc5; uninterpreted functions erase what the property is about (DESIGN 4/C05)",
     "C06": "same for geodesics, auxiliary latitudes, meridian arcs, cartesian conversion; the discrete table sentence "
            "is an enumeration of 47 dec2flt parses (CBMC does not finish dec2flt), not a solver question (DESIGN 4/C06)",
+    "C04": "macro expansion and its termination argument live entirely in text instantiation (RawParameters::next -> "
+           "is_resource_name -> split_into_parameters -> normalize, chase over String maps, Op::op recursion): String/"
+           "BTreeMap code on symbolic text that Kani does not finish even on 4 symbolic bytes, and Engine S covers pure "
+           "method chains only; the recursion counter alone (level > 100) is two lines and would claim nothing of the "
+           "property (DESIGN 4/C04)",
+    "C14": "the numeric pairs (tmerc/btmerc, Fukushima/Bowring, series/closed forms) need libm; the thin-wrapper pairs "
+           "(cart vs ellipsoid method, latitude/curvature/gravity operators vs trait methods) are relational float "
+           "proofs of 10-50 multiplications each, which CBMC does not finish (DESIGN 1.6, probes I/J/K); Minimal vs "
+           "Plain is an I/O statement. Nothing of C14 is decided here",
     "C17": "parse_proj/tidy_proj are imperative String/Vec<String> loops over unbounded text; Kani does not finish the "
            "normalize sub-expression on 4 symbolic bytes and Engine S only covers pure method chains (DESIGN 4/C17)",
     "C18": "quantifies over API histories and thread schedules on UUID-keyed maps, a Mutex-guarded grid cache, file "
